@@ -77,6 +77,12 @@ class _Env(object):
     class Counted(Sub):
       def __init__(self_):
         env.constructed.append('Sub')
+        # a constructor takes a moment (opens a device): under the scheduler another test may run meanwhile
+        from harness import sched as _sched
+        if _sched.SCHED is not None and _sched.SCHED.me() is not None:
+          _sched.SCHED.yield_point('plug-constructor')
+          self_.logger.info('fixture %s ready', type(self_).__name__)
+          _sched.SCHED.yield_point('plug-constructor')
         if env.fail_ctor:
           raise RuntimeError('fixture missing in this run')
     self.Sub = Sub = Counted
